@@ -321,7 +321,6 @@ class LinearPaths:
       a = gfapy.SegmentEnd(b).inverted()
       if self._progress:
         self._progress_log("merge_linear_paths", 0.95)
-    merged.vlevel = merged_vlevel
     if isinstance(merged.name, list):
       merged.name = "_".join(merged.name)
     ortag = merged.get("or")
@@ -337,6 +336,7 @@ class LinearPaths:
           raise gfapy.InconsistencyError(
               "Computed sequence length {} ".format(len(merged.sequence))+
               "and computed LN {} differ".format(merged.LN))
+    merged.vlevel = merged_vlevel
     if merged.length is not None:
       for count_tag in ["KC", "RC", "FC"]:
         merged.set(count_tag, None)
